@@ -559,10 +559,43 @@ const SUBST_BYTES: &[u8] = &[0x00, 0x01, 0x0c, 0x0d, 0x0e, 0x0f, 0x10, 0xd0, 0xe
 
 pub fn corpus<F: FnMut(&'static str, &[u8])>(c: &CorpusCfg, f: &mut F) {
     fam_directed(c, f);
+    fam_numbers(c, f);
     fam_suffixes(c, f);
     fam_ext(c, f);
     fam_mutated(c, f);
     fam_random(c, f);
+}
+
+/// every option number 0..=65535 carried by a well-formed datagram: as the only option, and as the
+/// second of two options whose deltas add up to it
+fn fam_numbers<F: FnMut(&'static str, &[u8])>(c: &CorpusCfg, f: &mut F) {
+    let mut buf: Vec<u8> = Vec::with_capacity(16);
+    let put = |buf: &mut Vec<u8>, delta: usize, val: &[u8]| {
+        let nib = |v: usize| if v < 13 { v as u8 } else if v < 269 { 13 } else { 14 };
+        buf.push(nib(delta) << 4 | nib(val.len()));
+        if delta >= 269 {
+            buf.push(((delta - 269) >> 8) as u8);
+            buf.push((delta - 269) as u8);
+        } else if delta >= 13 {
+            buf.push((delta - 13) as u8);
+        }
+        buf.extend_from_slice(val);
+    };
+    for n in 0..=65535usize {
+        if !c.mine(n as u64) || (c.level == 0 && (n / c.nshards as usize) % 157 != 0) {
+            continue;
+        }
+        buf.clear();
+        buf.extend_from_slice(&[0x40, 0x02, 0x00, 0x07]);
+        put(&mut buf, n, &[(n & 0xff) as u8]);
+        f("number", &buf);
+        buf.clear();
+        buf.extend_from_slice(&[0x61, 0x45, 0xab, 0xcd, 0x99]);
+        put(&mut buf, n / 2, &[]);
+        put(&mut buf, n - n / 2, &[1, 2]);
+        buf.extend_from_slice(&[0xff, 0x00]);
+        f("number", &buf);
+    }
 }
 
 fn fam_suffixes<F: FnMut(&'static str, &[u8])>(c: &CorpusCfg, f: &mut F) {
